@@ -99,7 +99,7 @@ func mDecodeChecks(k int, b []byte) {
 
 // H_M1_scalars2 ... : Unmarshal vs validate vs generic scan vs checkInitialized on every input.
 //
-//verif:props=C06,C10 bounds=VScalars2;all-byte-strings<=3(quick)/5(thorough) maxsteps=6000000
+//verif:props=C06 bounds=VScalars2;all-byte-strings<=3(quick)/5(thorough) maxsteps=6000000
 func H_M1_scalars2() {
 	N := 3
 	if nd.Thorough() {
@@ -117,7 +117,7 @@ func H_M1_scalars3() {
 	mDecodeChecks(1, nd.Bytes(N))
 }
 
-//verif:props=C06 bounds=VRepeats;all-byte-strings<=3(quick)/5(thorough) maxsteps=6000000
+//verif:props=C06,C13 bounds=VRepeats;all-byte-strings<=3(quick)/5(thorough) maxsteps=6000000
 func H_M1_repeats() {
 	N := 3
 	if nd.Thorough() {
@@ -199,7 +199,7 @@ func mOneFieldBytes(trail int) []byte {
 
 func mOneField(k int, trail int) { mDecodeChecks(k, mOneFieldBytes(trail)) }
 
-//verif:props=C06,C03 bounds=VScalars2;tag-byte(any-field-1..15,any-wire-type)+complete-payload(varints-to-10-bytes,fixed,bytes<=3,group)+0(quick)/1(thorough)-trailing-bytes maxsteps=6000000
+//verif:props=C06 bounds=VScalars2;tag-byte(any-field-1..15,any-wire-type)+complete-payload(varints-to-10-bytes,fixed,bytes<=3,group)+0(quick)/1(thorough)-trailing-bytes maxsteps=6000000
 func H_M1_field_scalars2() {
 	M := 0
 	if nd.Thorough() {
@@ -217,11 +217,43 @@ func H_M1_field_scalars3() {
 	mOneField(1, M)
 }
 
-//verif:props=C06 bounds=VRepeats;tag-byte+complete-payload+0(quick)/1(thorough)-trailing-bytes maxsteps=6000000
+//verif:props=C06,C13 bounds=VRepeats;tag-byte+complete-payload+0(quick)/1(thorough)-trailing-bytes maxsteps=6000000
 func H_M1_field_repeats() {
 	M := 0
 	if nd.Thorough() {
 		M = 1
 	}
 	mOneField(2, M)
+}
+
+// H_M1_depth: with a small recursion limit (0..3, where proto.UnmarshalOptions.RecursionLimit
+// is passed straight through) the decoder and the validator agree on which nestings exceed it:
+// valid => decodes, invalid => fails, on messages, groups and repeated variants nested in VNests.
+//
+//verif:props=C06 bounds=VNests;all-byte-strings<=3(quick)/5(thorough);recursion-limit-0..2(quick)/0..3(thorough) maxsteps=6000000
+func H_M1_depth() {
+	N := 3
+	if nd.Thorough() {
+		N = 5
+	}
+	b := nd.Bytes(N)
+	depth := nd.Int(0, 2)
+	if nd.Thorough() {
+		depth = nd.Int(0, 3)
+	}
+	mi, p := vType(3)
+	opts := unmarshalOptions{resolver: vResolver{}, depth: depth}
+	_, err := mi.unmarshalPointer(b, p, 0, opts)
+	_, st := mi.validate(b, 0, opts)
+	if err == nil {
+		nd.Reach("accepted")
+		nd.Assert(st != ValidationInvalid, "validator does not call an accepted buffer invalid")
+	} else {
+		nd.Reach("rejected")
+		nd.Assert(st != ValidationValid, "validator does not call a rejected buffer valid (recursion limit included)")
+	}
+	// reference nesting depth of the well-formed input: messages/groups of VNests fields 1..5
+	if mScan(b) && depth == 0 {
+		nd.Assert(err != nil, "recursion limit 0 admits no message at all")
+	}
 }
